@@ -84,12 +84,18 @@ def specs() -> List[Dict[str, Any]]:
 
     # ---- maze family -----------------------------------------------------------------------
     for r, c in [(1, 2), (2, 1), (2, 2), (2, 3), (3, 3), (3, 4), (4, 4), (5, 5), (3, 7), (6, 2), (7, 7), (10, 10),
-                 (9, 12)]:
+                 (9, 12), (9, 5), (5, 9), (11, 7), (7, 10), (10, 6)]:
         S.append(spec(f"maze.RandomGenerator({r},{c})", f"G.maze.RandomGenerator({r},{c})", "maze",
                       "maze.RandomGenerator", dict(rows=r, cols=c), small=r * c <= 25))
     S.append(spec("maze.ToyGenerator()", "G.maze.ToyGenerator()", "maze", "maze.ToyGenerator",
                   dict(rows=5, cols=5), random=False))
-    for r, c, a in [(2, 2, 3), (3, 3, 1), (3, 4, 2), (3, 7, 1), (5, 3, 2), (10, 10, 3), (6, 9, 4)]:
+    # the shared maze utility itself: generate_maze(width, height, key) -> int8 array (height, width)
+    for w, h in [(9, 5), (5, 9), (11, 7), (6, 10), (7, 7), (2, 2), (1, 4)]:
+        S.append(spec(f"maze_utils.generate_maze(width={w},height={h})", f"GENERATE_MAZE({w}, {h})", "maze_walls",
+                      "maze_utils.generate_maze", dict(rows=h, cols=w), family="maze", small=w * h <= 25,
+                      singleton="one wall pattern" if w * h <= 4 else "", prepare="mc.checks.c10.prepare_generate_maze"))
+    for r, c, a in [(2, 2, 3), (3, 3, 1), (3, 4, 2), (3, 7, 1), (5, 3, 2), (10, 10, 3), (6, 9, 4), (9, 5, 2), (5, 9, 2),
+                    (7, 11, 3), (10, 6, 1)]:
         S.append(spec(f"cleaner.RandomGenerator({r},{c},{a})", f"G.cleaner.RandomGenerator({r},{c},{a})", "cleaner",
                       "cleaner.RandomGenerator", dict(rows=r, cols=c, agents=a), small=r * c <= 25,
                       singleton="a 2x2 recursive-division maze has one wall pattern and all agents start at (0,0)"
@@ -127,13 +133,18 @@ def specs() -> List[Dict[str, Any]]:
     # ---- mmst ----------------------------------------------------------------------------------
     # regression keys (both tiers) of the two rare MMST findings: a disconnected graph (10 nodes, key 1270) and a
     # self loop (single-agent 6-node graph, key 489); these two sizes use a 16-key window in the quick tier
-    mm_reg = {10: [1270], 6: [489]}
+    # num_nodes not divisible by num_agents (unequal sub graphs, cumulative node offsets) is in BOTH tiers:
+    # (11,20,4,2,3), (10,14,4,3,2), (14,22,4,4,2); (17,24,4,3,2) in the thorough tier
+    mm_reg = {(10, 12): [1270], (6, 6): [489]}
+    mm_quick = {(36, 72): None, (12, 18): None, (8, 9): None, (10, 12): 16, (6, 6): 16, (11, 20): None, (10, 14): 16,
+                (14, 22): 16}
     for nn, ne, d, a, m, t in [(36, 72, 5, 3, 4, 70), (12, 18, 4, 2, 3, 6), (10, 12, 3, 2, 2, 10), (20, 30, 4, 4, 2, 20),
-                               (17, 24, 4, 3, 2, 12), (8, 9, 3, 2, 2, 8), (6, 6, 3, 1, 3, 8)]:
+                               (17, 24, 4, 3, 2, 12), (8, 9, 3, 2, 2, 8), (6, 6, 3, 1, 3, 8), (11, 20, 4, 2, 3, 12),
+                               (10, 14, 4, 3, 2, 10), (14, 22, 4, 4, 2, 14)]:
         S.append(spec(f"mmst.SplitRandomGenerator({nn},{ne},{d},{a},{m})",
                       f"G.mmst.SplitRandomGenerator({nn},{ne},{d},{a},{m},{t})", "mmst", "mmst.SplitRandomGenerator",
-                      dict(nodes=nn, edges=ne, max_degree=d, agents=a, per_agent=m), quick=nn in (36, 12, 8, 10, 6),
-                      extra_keys=mm_reg.get(nn, []), k_quick=16 if nn in mm_reg else None))
+                      dict(nodes=nn, edges=ne, max_degree=d, agents=a, per_agent=m), quick=(nn, ne) in mm_quick,
+                      extra_keys=mm_reg.get((nn, ne), []), k_quick=mm_quick.get((nn, ne))))
 
     # ---- flat pack -----------------------------------------------------------------------------
     for r, c in [(1, 1), (1, 3), (2, 2), (3, 2)]:
@@ -153,13 +164,14 @@ def specs() -> List[Dict[str, Any]]:
 
     # ---- bin pack ------------------------------------------------------------------------------
     tw = [5870, 2330, 2200]
+    # split_num_same_items=5 is the library default (multi-copy splits); max_num_items 6, 10, 20 are in BOTH tiers
     for mi, me, sp_, dims in [(20, 40, 2, tw), (5, 10, 2, tw), (10, 20, 5, tw), (6, 12, 1, tw), (12, 30, 3, [10, 7, 5]),
-                              (40, 60, 5, tw)]:
+                              (40, 60, 5, tw), (6, 12, 5, tw), (20, 40, 5, tw)]:
         extra = "" if dims == tw else f", container_dims=({dims[0]},{dims[1]},{dims[2]})"
         S.append(spec(f"bin_pack.RandomGenerator({mi},{me},split={sp_}{',dims=' + str(tuple(dims)) if dims != tw else ''})",
                       f"G.bin_pack.RandomGenerator({mi},{me},split_num_same_items={sp_}{extra})", "bin_pack",
                       "bin_pack.RandomGenerator", dict(max_items=mi, max_ems=me, dims=dims), mode="binpack_pair",
-                      quick=mi in (20, 5, 12)))
+                      quick=(mi, sp_) in [(20, 2), (5, 2), (12, 3), (6, 5), (10, 5), (20, 5)]))
     S.append(spec("bin_pack.ToyGenerator()", "G.bin_pack.ToyGenerator()", "bin_pack", "bin_pack.ToyGenerator",
                   dict(max_items=20, max_ems=60, dims=tw), mode="binpack_pair", random=False, k_quick=8, k_thorough=32))
     S.append(spec("bin_pack.CSVGenerator[hand-written file]", "G.bin_pack.CSVGenerator(CSV_PATH, 12)", "bin_pack_csv",
@@ -295,6 +307,12 @@ def prepare_csv_saved(sp: Dict[str, Any], ctx: Dict[str, Any]) -> Dict[str, Any]
     dims = np.stack([np.asarray(st.items.x_len), np.asarray(st.items.y_len), np.asarray(st.items.z_len)], -1)[mask]
     ctx["cache"]["csv_rows"] = [["item", int(a), int(b), int(c), 1] for a, b, c in dims.tolist()]
     return {"CSV_PATH": path}
+
+
+def prepare_generate_maze(sp: Dict[str, Any], ctx: Dict[str, Any]) -> Dict[str, Any]:
+    from jumanji.environments.commons.maze_utils import maze_generation
+
+    return {"GENERATE_MAZE": lambda w, h: (lambda key: maze_generation.generate_maze(w, h, key))}
 
 
 def prepare_sudoku(sp: Dict[str, Any], ctx: Dict[str, Any]) -> Dict[str, Any]:
